@@ -52,10 +52,16 @@ ExpectedExit(c) ==
               \* (scanner kinds); a plain script does not: 70 or 74 are both accepted
               IF c.kind \in ScannerKinds THEN {74} ELSE {70, 74}
          [] c.how = "Unexpected" -> {70}
-         [] c.how \in {"CtrlC", "KbdInt"} -> {130}
+         [] c.how \in {"CtrlC", "KbdInt"} -> IF c.how = "CtrlC" /\ c.point \notin RunPoints THEN 0..255 ELSE {130}
          [] c.how = "DbFails" /\ c.point = "DbOpen"  -> 1..255          \* some failure status
          [] c.how = "DbFails" /\ c.point = "DbClose" -> {0} \cup SysExits
          [] OTHER -> 0..255
+
+\* Ctrl-C is asynchronous: it can also arrive while the (blocking) pre-hook runs.  The statement maps exit kinds
+\* "raised in setup, main or teardown"; for an interrupt outside the run proper it promises no particular status
+\* (the run may be carried out or cut short), but "however a command ends" META.json is written, the log is closed
+\* and the lock is released.
+InterruptOutsideRun(c) == c.how = "CtrlC" /\ c.point \notin RunPoints
 
 UnspecifiedExit(c) == Cardinality(ExpectedExit(c)) > 1
 \* the run_meta row cannot be demanded when the database itself is what fails
@@ -67,7 +73,7 @@ UnspecifiedDb(c)   == Effective(c) /\ c.how = "DbFails"
 Clauses(c, o) == <<
   <<"X1/exit-code-follows-mapping",  o.exit \in ExpectedExit(c)>>,
   <<"X2/meta-json-written",          c.art => o.meta.present>>,
-  <<"X2/meta-exit-code=process",     (c.art /\ o.meta.present) => o.meta.exit = o.exit>>,
+  <<"X2/meta-exit-code=process",     (c.art /\ o.meta.present /\ ~InterruptOutsideRun(c)) => o.meta.exit = o.exit>>,
   <<"X2/meta-start<=end",            (c.art /\ o.meta.present) => o.meta.timesOk>>,
   <<"X2/meta-config-recreates-run",  (c.art /\ o.meta.present) => o.meta.configOk>>,
   <<"X3/log-file-exists",            c.art => o.log.present>>,
@@ -83,7 +89,7 @@ Clauses(c, o) == <<
                                         (o.phases = FullRun /\ o.pre = 1 /\ o.post.ran = 1)>>,
   \* docs/config.md: GALLIA_EXIT_CODE "is set to the exit_code which gallia will use",
   \* GALLIA_META "contains the JSON encoded content of META.json"
-  <<"X6/post-hook-sees-exit-code",   (c.hooks /\ o.post.ran > 0) =>
+  <<"X6/post-hook-sees-exit-code",   (c.hooks /\ o.post.ran > 0 /\ ~InterruptOutsideRun(c)) =>
                                         (o.post.exit = o.exit /\ o.post.metaExit = o.exit)>>
 >>
 
